@@ -418,11 +418,19 @@ func (r *Run) onEvent(gid int64, kind string, a, b uint64, key, val []byte) {
 	case "compact.done":
 		r.setPhase("")
 		r.probe("compaction_done")
+		if b&0xffff >= 2 {
+			r.probe("compaction_multi_table_output")
+		}
+		if b>>16&0xffff >= 1 {
+			r.probe("compaction_with_bottom_tables")
+		}
 		r.mu.Lock()
 		r.compactions++
 		r.mu.Unlock()
 	case "enc.iv":
 		r.onEncIV(key, a, b)
+	case "levels.baseClamped":
+		r.probe("base_level_clamped_to_nonempty_level")
 	case "compact.l0l0":
 		// reach of the L0->L0 picker: how many idle, old-enough tables worker 0 found
 		r.probe("l0l0_attempts")
@@ -1753,6 +1761,15 @@ func (r *Run) prefill() {
 	perTable := int(cfg.MemTableSize/int64(vsz+48)) + 2
 	for i := 0; written < target && i < 3000; i++ {
 		key := fillKeys[i%len(fillKeys)]
+		if cfg.PrefillSkew && !cfg.PrefillClustered {
+			// a third of the keys gets most of the versions, the others one or two
+			hot := len(fillKeys)/3 + 1
+			if prng.Intn(10) < 8 {
+				key = fillKeys[prng.Intn(hot)]
+			} else {
+				key = fillKeys[prng.Intn(len(fillKeys))]
+			}
+		}
 		if cfg.PrefillClustered {
 			if segLeft == 0 && narrowHead > 0 {
 				lo := prng.Intn(len(sorted))
